@@ -649,6 +649,37 @@ func genC20(g *Gen) {
 			}
 		}
 	}
+	// ---- stale-start probes: one or two Nexts are already blocked for 1.5 .. 3 periods when the first
+	// trigger arrives; a second trigger and a further Next follow within a fraction of the period
+	// (the start of the period must be the instant of the handout, not the instant Next was entered);
+	// and a Cancel with one, two or three Nexts blocked (every one of them must be released)
+	for _, d := range []int64{5000, 10000, 20000, 50000} {
+		for _, trailing := range []bool{false, true} {
+			for _, pend := range []int64{d * 3 / 2, d * 2, d * 3} {
+				for _, gap := range []int64{d / 8, d / 4, d / 2} {
+					for _, nblocked := range []int{1, 2} {
+						var ops [][2]int64
+						for i := 0; i < nblocked; i++ {
+							ops = append(ops, [2]int64{1, 0})
+						}
+						ops = append(ops, [2]int64{3, pend}, [2]int64{0, 0}, [2]int64{3, gap}, [2]int64{0, 0}, [2]int64{1, d / 4})
+						add("exhaustive", c20ThrIn(d, trailing, ops))
+					}
+				}
+				for _, nblocked := range []int{1, 2, 3} {
+					var ops [][2]int64
+					for i := 0; i < nblocked; i++ {
+						ops = append(ops, [2]int64{1, 0})
+					}
+					ops = append(ops, [2]int64{3, pend}, [2]int64{2, 0})
+					add("exhaustive", c20ThrIn(d, trailing, ops))
+					// a trigger first: one blocked Next is granted, the others are released by the Cancel
+					ops2 := append(append([][2]int64{}, ops[:nblocked+1]...), [2]int64{0, 0}, [2]int64{3, d / 4}, [2]int64{2, 0})
+					add("exhaustive", c20ThrIn(d, trailing, ops2))
+				}
+			}
+		}
+	}
 	g.Exhaustive("exhaustive")
 
 	// ---- seeded random: longer scripts, every wait, arbitrary sleeps up to 2.2 periods
@@ -726,7 +757,9 @@ func init() {
 			"{Call, Cancel, gap w/3, gap 1.6w} up to length 4 (thorough 6); bursts of 1..50 calls x second burst x gap below/above x every " +
 			"placement of cancel for every wait; all throttle scripts over {Call, Next joined <= d/4, Next not joined, Cancel, sleep d/4, " +
 			"sleep 1.5d} up to length 4 at d = 20 ms and 3 at 5 ms (thorough 6/5/4/4 at 20/5/10/50 ms), trailing on and off; period probes (a permission, " +
-			"then 1-2 triggers at 3/8, 5/8, 7/8, 9/8 of the period, with 1-2 Nexts after them or already blocked) for every wait; then seeded random " +
+			"then 1-2 triggers at 3/8, 5/8, 7/8, 9/8 of the period, with 1-2 Nexts after them or already blocked) for every wait; stale-start probes " +
+			"(1-2 Nexts blocked for 1.5, 2, 3 periods before the first trigger, then a second trigger d/8, d/4, d/2 later and a further Next; Cancel with " +
+			"1-3 Nexts blocked, with and without a trigger before it) for every wait; then seeded random " +
 			"scripts with arbitrary sleeps. Non-trivial: Delay with a Stop; debounce with >= 2 calls or a cancel after a call; throttle with a " +
 			"permission followed by a further Call or Next. Counters named discarded:* count comparisons whose deciding inequality " +
 			"has < 3 ms of slack (the acceptor then allows both outcomes).",
